@@ -240,9 +240,6 @@ func main() {
 	if !found {
 		bad("app.go: call of NewAnteHandler not found")
 	}
-	if postInstalled {
-		bad("app.go: a post handler is installed; the model of execution-status marking assumes none")
-	}
 
 	// ---- PoorNetworkManagementDecorator loop shape
 	sendReturns, allowedReturns := true, true
